@@ -1,3 +1,4 @@
 import Driver.Dec
 import Driver.Rid
+import Driver.Evq
 import Driver.Main
